@@ -81,7 +81,8 @@ fn check(case: &Case) -> Outcome {
     cands.extend([0, modulus - 1, modulus, u32::MAX, 0x7fff_ffff, 0x8000_0000]);
     cands.extend(case.random.iter().copied());
 
-    let long = case.secret.len() > ralgo.block();
+    // the "long secret" defect: with a secret longer than the hash block NOTHING is accepted
+    let long = case.secret.len() > ralgo.block() && !cands.iter().any(|c| totp.verify(*c, t));
     for code in &cands {
         let got = totp.verify(*code, t);
         let want = accept.contains(code);
